@@ -654,6 +654,44 @@ def rule_every_input_read(ctx, rep, modules=None, min_loops: int = 3):
 LAZY_CALLS = {"map", "filter", "zip", "iter", "chain", "reversed", "enumerate", "islice", "from_iterable", "finditer", "iglob", "rglob", "glob", "scandir", "iterdir", "takewhile", "dropwhile"}
 
 
+def rule_result_equality(ctx, rep):
+    rep.rule(
+        "R-RESULT-EQUALITY",
+        "two-site rule: results are compared by all of their fields (the dataclass equality) wherever the readers or the merge de-duplicate by "
+        "value.  While no class of the Result / Location hierarchy defines `__eq__` / `__hash__` of its own, a `dict.fromkeys(results)` / "
+        "`set(results)` can only drop exact copies; once one does (equality by finding id, by rule, ...) every value-based de-duplication in the "
+        "result path merges *different* findings that agree on that key (ids are unique per export, not across exports) and one of them never "
+        "reaches its codemod",
+        min_instances=1,
+    )
+    roots = ("codemodder.result.Result", "codemodder.result.Location")
+    own_eq = []
+    for cq, c in ctx.prog.classes.items():
+        if any(rt in ctx.prog.mro(cq) for rt in roots):
+            for m in ("__eq__", "__hash__"):
+                if m in c.methods:
+                    own_eq.append(c.methods[m])
+    dedups = []
+    for fn in ctx.prog.live_functions():
+        # the modules that build, merge and hand out Result lists (run()'s own sets are over failed files / changed paths, not results)
+        if fn.module.name == "codemodder.codemodder" or fn.module.name not in READER_MODULES + ("codemodder.result", "core_codemods.sonar.results", "core_codemods.defectdojo.results", "codemodder.codemods.base_codemod"):
+            continue
+        for c in walk_no_nested(fn.node):
+            if isinstance(c, ast.Call) and ((call_name(c) or "") in ("dict.fromkeys", "set", "frozenset", "collections.OrderedDict.fromkeys", "OrderedDict.fromkeys")) and c.args:
+                dedups.append((fn, c))
+    if not own_eq:
+        rep.instance("R-RESULT-EQUALITY", "codemodder.result.Result", ctx.prog.cls("codemodder.result.Result").loc(), True,
+                     detail=f"no class of the Result / Location hierarchy defines its own equality ({len(dedups)} value-based de-duplications in the result path can only drop exact copies)")
+        return
+    if not dedups:
+        rep.instance("R-RESULT-EQUALITY", own_eq[0].qname, own_eq[0].loc(), True, detail="own equality defined, but nothing in the result path de-duplicates by value")
+        return
+    for fn, c in dedups:
+        rep.check("R-RESULT-EQUALITY", fn.qname, fn.loc(c), False, f"dedup:{unparse(c)[:40]}",
+                  f"`{unparse(c)[:60]}` de-duplicates by value while {own_eq[0].qname} makes results equal on part of their fields: different findings "
+                  "that agree on it collapse into one")
+
+
 def rule_one_shot_iter(ctx, rep, rule_id="R-ONE-SHOT-ITER"):
     rep.rule(
         rule_id,
@@ -797,6 +835,11 @@ def check(ctx, rep):
     rule_sonar_component(ctx, rep)
     rule_every_input_read(ctx, rep)
     rule_one_shot_iter(ctx, rep)
+    rule_result_equality(ctx, rep)
+    # a finding whose file the project listing leaves out by its name or location is read into the result set and never reaches its codemod
+    from .c05 import rule_enum_siblings
+
+    rule_enum_siblings(ctx, rep)
     rule_index_zero(ctx, rep)
     from .c09 import rule_finding_owns_rule
 
